@@ -90,14 +90,17 @@ class Scenario:
             # (a transient one: the file system is healthy again now); that context ended with the error
             self.vfs.fail["open-write"] = OSError(28, "No space left on device")
 
+            leave = asyncio.Event()
+
             async def first_failing():
                 async with self.gw:
-                    await asyncio.sleep(0)
-                    await asyncio.sleep(0)
+                    await leave.wait()
 
             t0 = loop.create_task(first_failing())
-            self._drain()
+            self._drain()  # the saver's first save meets the error and the saver dies
             self.vfs.fail.clear()
+            leave.set()
+            self._drain()
             if not t0.done():
                 raise core.HarnessError("earlier context did not finish")
             t0.exception() if not t0.cancelled() else None  # whatever it ended with is not this scenario's business
